@@ -46,6 +46,11 @@ BASE_MIX = {
 }
 
 
+def catalog_target(how):
+    from .world import CONVERT_TARGET
+    return CONVERT_TARGET[how]
+
+
 def gen_plan(profile, seed, tier="quick"):
     """tier 'thorough': every second seed is a *deep* run (more clients, longer
     programs, larger sizes, deeper PCT); the others are generated exactly as in
@@ -348,9 +353,10 @@ def gen_plan(profile, seed, tier="quick"):
                 cs = rng.randrange(len(slots))
                 how = _pick(rng, ["double", "float", "to64", "to32", "double", "float",
                                   "double_overwrite", "float_overwrite", "reload_assign",
-                                  "eval", "train"])
-                if how not in ("reload_assign", "eval", "train"):
-                    slot_dtype[cs] = "float64" if how.startswith(("double", "to64")) else "float32"
+                                  "eval", "train", "parent_double", "parent_float",
+                                  "type64", "type32", "tolike64", "tolike32", "cpu"])
+                if catalog_target(how):
+                    slot_dtype[cs] = catalog_target(how)
                 cop = {"op": "convert", "id": new_id(), "slot": cs, "how": how}
                 if rng.random() < 0.25 and cs in cur_params:
                     # in-place load of another configuration's checkpoint (same
@@ -375,8 +381,9 @@ def gen_plan(profile, seed, tier="quick"):
                 if "dst" in rop and rng.random() < 0.6:
                     # use the two copies differently right away: are they independent?
                     a, b = (rs, rop["dst"]) if rng.random() < 0.5 else (rop["dst"], rs)
-                    how = _pick(rng, ["double", "float", "to64", "to32"])
-                    slot_dtype[a] = "float64" if how in ("double", "to64") else "float32"
+                    how = _pick(rng, ["double", "float", "to64", "to32", "parent_double",
+                                      "parent_float", "type64", "tolike32"])
+                    slot_dtype[a] = catalog_target(how)
                     prog.append({"op": "convert", "id": new_id(), "slot": a, "how": how})
                     if slots[b] in catalog.INPUT_RANK:
                         emit_call(c, prog, b)
